@@ -369,9 +369,14 @@ impl G<'_> {
                 E::Host(H_TOK, vec![k, v])
             }
             T::L => match self.p.below(10) {
-                0..=6 => {
+                0..=4 => {
                     let n = self.p.below(4);
                     E::List((0..n).map(|_| self.expr(T::I, d1)).collect())
+                }
+                // `+` on lists: the other user of `desugared_binop`
+                5..=6 => {
+                    let (l, r) = (self.expr(T::L, d1), self.expr(T::L, d1));
+                    E::ConcatL(Box::new(l), Box::new(r))
                 }
                 _ => {
                     let (k, v) = (self.k(), self.expr(T::L, d1));
